@@ -1,8 +1,9 @@
 (** * C14 correspondence cases and monitors: status tells the truth about replica sets and pods. *)
 From EDS Require Import Model.Objects Model.Fitness Model.PodSpec Model.Default Model.Rolling Model.Canary Model.ErsReconcile
-     Model.EdsLogic Model.EdsReconcile Model.Spec Check.World Check.C08Check Proofs.Lists.
+     Model.EdsLogic Model.EdsReconcile Model.Spec Check.World Check.C08Check Check.C02Check Proofs.Lists.
 
-Definition case := World.case.
+(** a reconcile step of a store or history, or the store at the end of a fair tail (see [C02Check]) *)
+Definition case := C02Check.case.
 
 Definition mon_status (sn : eds_snapshot) (e : eds) (u : ers) (st' : eds_status) : list N :=
   let rss := rs_of_eds e (es_rss sn) in
@@ -51,7 +52,10 @@ Definition mon_ers (sn : ers_snapshot) (obs : ers_obs) : list N :=
 
 Definition chk (c : case) : list N :=
   match c with
-  | CErs sn obs => code_if (step_ok_ers sn obs) 1 ++ mon_ers sn obs
-  | CEds sn obs => code_if (step_ok_eds sn obs) 1 ++ mon_eds sn obs
+  | W (CErs sn obs) => code_if (step_ok_ers sn obs) 1 ++ mon_ers sn obs
+  | W (CEds sn obs) => code_if (step_ok_eds sn obs) 1 ++ mon_eds sn obs
+  | Final e rss nodes pods silent _ _ =>
+      (* the quiescence clause is judged on a store the last two fair rounds left untouched *)
+      if silent then mon_quiescent e rss nodes pods else []
   end.
 Definition run (cs : list case) : list (N * N) := run_cases chk 0%N cs.
